@@ -45,6 +45,7 @@ func relFuncName(fn *ssa.Function) string {
 	return s
 }
 
+var ghostHasRe = regexp.MustCompile(`ghostHas\("([^"]+)"`)
 var ghostIfaceRe = regexp.MustCompile(`ghostIface\("([^"]+)"`)
 
 type importerFunc func(path string) (*types.Package, error)
@@ -67,6 +68,9 @@ func Load(repoDir, verifDir string) (*Loaded, error) {
 			overlay[name] = b
 			for _, mm := range ghostIfaceRe.FindAllStringSubmatch(string(b), -1) {
 				ifaceGhosts[mm[1]] = true
+			}
+			for _, mm := range ghostHasRe.FindAllStringSubmatch(string(b), -1) {
+				setGhosts[mm[1]] = true
 			}
 			specFiles[name] = true
 		}
